@@ -15,6 +15,7 @@ const NKeys = 4
 type Entry struct {
 	Key   int      `json:"key"`
 	ByKey bool     `json:"by_key"`
+	Pad   int      `json:"key_pad,omitempty"` // by_key only: extra bytes appended to the 48-byte public key
 	Att   vkit.Att `json:"att"`
 }
 
@@ -25,6 +26,7 @@ type Step struct {
 	Entries []Entry    `json:"entries,omitempty"`
 	Key     int        `json:"key,omitempty"`
 	ByKey   bool       `json:"by_key,omitempty"`
+	Pad     int        `json:"key_pad,omitempty"`
 	Prop    *vkit.Prop `json:"prop,omitempty"`
 }
 
@@ -147,6 +149,16 @@ type GenOpts struct {
 	NoDupBatch bool
 }
 
+// GenPad draws how many extra bytes follow the public key of a by-key request (mostly none): the
+// wire format does not bound the field, and Dirk resolves the account from the first 48 bytes.
+func GenPad(t *rapid.T, byKey bool) int {
+	if !byKey || rapid.IntRange(0, 9).Draw(t, "pad_any") < 8 {
+		return 0
+	}
+
+	return rapid.SampledFrom([]int{1, 2, 16, 48}).Draw(t, "pad")
+}
+
 // GenStep draws one step.
 func GenStep(t *rapid.T, o GenOpts) Step {
 	total := o.ProposeW + o.AttestW + o.BatchW + o.RestartW
@@ -156,7 +168,7 @@ func GenStep(t *rapid.T, o GenOpts) Step {
 		return Step{
 			Kind:    "attest",
 			ViaGRPC: rapid.IntRange(0, 9).Draw(t, "grpc") >= 7,
-			Entries: []Entry{{Key: rapid.IntRange(0, NKeys-1).Draw(t, "key"), ByKey: rapid.Bool().Draw(t, "bykey"), Att: GenAtt(t, o.AllowHigh)}},
+			Entries: []Entry{genEntry(t, rapid.IntRange(0, NKeys-1).Draw(t, "key"), o.AllowHigh)},
 		}
 	case k < o.AttestW+o.BatchW:
 		m := rapid.IntRange(2, 12).Draw(t, "batch_n")
@@ -169,21 +181,31 @@ func GenStep(t *rapid.T, o GenOpts) Step {
 				continue
 			}
 			used[key] = true
-			s.Entries = append(s.Entries, Entry{Key: key, ByKey: rapid.Bool().Draw(t, "bykey"), Att: GenAtt(t, o.AllowHigh)})
+			s.Entries = append(s.Entries, genEntry(t, key, o.AllowHigh))
 		}
 
 		return s
 	case k < o.AttestW+o.BatchW+o.ProposeW:
-		return Step{
+		st := Step{
 			Kind:    "propose",
 			ViaGRPC: rapid.IntRange(0, 9).Draw(t, "grpc") >= 7,
 			Key:     rapid.IntRange(0, NKeys-1).Draw(t, "key"),
 			ByKey:   rapid.Bool().Draw(t, "bykey"),
 			Prop:    GenProp(t, o.AllowHigh),
 		}
+		st.Pad = GenPad(t, st.ByKey)
+
+		return st
 	default:
 		return Step{Kind: "restart"}
 	}
+}
+
+func genEntry(t *rapid.T, key int, allowHigh bool) Entry {
+	e := Entry{Key: key, ByKey: rapid.Bool().Draw(t, "bykey"), Att: GenAtt(t, allowHigh)}
+	e.Pad = GenPad(t, e.ByKey)
+
+	return e
 }
 
 // GenCase draws a history.
